@@ -408,7 +408,10 @@ def run(chk, tier):
         elif H.kind(e0) == "if" and "InvalidMaxPdu" in txt:
             seq.append(("max-range", None, None, s[1]))
         elif H.kind(e0) == "if" and "PduTooLarge" in txt:
-            seq.append(("strict", "strict" in txt and "pdu_length Le max_pdu_length" in txt.replace("(", "").replace(")", ""), None, s[1]))
+            # the comparison must be exactly `pdu_length <= max_pdu_length` (both plain locals: the length field excludes the 6-byte header already)
+            exact = any(H.kind(x) == "bin" and x[2] == "Le" and H.kind(H.peel(x[3])) == "path" and H.path_of(H.peel(x[3])) == "pdu_length"
+                        and H.kind(H.peel(x[4])) == "path" and H.path_of(H.peel(x[4])) == "max_pdu_length" for x in H.walk(e0[2]))
+            seq.append(("strict", "strict" in txt and exact, None, s[1]))
         elif "match" in txt and H.kind(e0) == "match" and e0[3] == "u8":
             seq.append(("body", None, None, s[1]))
     tail = H.peel(body[3]) if H.kind(body) == "block" and body[3] is not None else None
